@@ -123,6 +123,23 @@ void nested_callback_work(coap_session_t *session, int n) {
   coap_session_release(session);
 }
 
+// ping / pong handlers: libcoap's own keep-alive ping on an idle datagram session is answered with a Reset by the peer (here: the
+// context's own endpoint), which libcoap reports through the pong handler; both handlers re-enter the locking API
+void pong_cb(coap_session_t *session, const coap_pdu_t *, const coap_mid_t) {
+  Cb cb;
+  g->w.count("probe.pong_handler");
+  (void)coap_session_max_pdu_size(session);
+  (void)coap_new_message_id(session);
+  coap_session_reference(session);
+  coap_session_release(session);
+}
+void ping_cb(coap_session_t *session, const coap_pdu_t *, const coap_mid_t) {
+  Cb cb;
+  g->w.count("probe.ping_handler");
+  (void)coap_session_max_pdu_size(session);
+  (void)coap_new_message_id(session);
+}
+
 int event_cb(coap_session_t *session, const coap_event_t ev) {
   Cb cb;
   g->events_seen++;
@@ -156,6 +173,7 @@ struct C13 : Property {
     static const double pp[] = {0.1, 0.3, 0.5, 0.9};
     p["preempt"] = pp[r.below(4)];
     p["nested_callbacks"] = r.chance(0.5);
+    p["keepalive"] = r.chance(0.35);
     p["eintr"] = r.chance(0.5) ? 0.0 : r.chance(0.5) ? 0.05 : 0.3;      // probability that a blocking epoll_wait is interrupted by a signal (EINTR)
     int nw = (int)r.range(2, 6);
     json workers = json::array();
@@ -199,6 +217,9 @@ struct C13 : Property {
       coap_register_response_handler(cw.ctx, resp_cb);
       coap_register_nack_handler(cw.ctx, nack_cb);
       coap_register_event_handler(cw.ctx, event_cb);
+      coap_register_pong_handler(cw.ctx, pong_cb);
+      coap_register_ping_handler(cw.ctx, ping_cb);
+      if (plan.value("keepalive", false)) coap_context_set_keepalive(cw.ctx, 1);     // idle client sessions are pinged after 1 s
       coap_resource_t *r = coap_resource_init(coap_make_str_const("r"), 0);
       coap_register_request_handler(r, COAP_REQUEST_GET, hnd_get);
       coap_add_resource(cw.ctx, r);
@@ -378,7 +399,7 @@ struct C13 : Property {
             for (int k = 0; k < o.value("times", 1); k++) tsched::wait([]() { return false; }, 10);
           }
         }
-        tsched::wait([]() { return false; }, 500);
+        tsched::wait([]() { return false; }, plan.value("keepalive", false) && !mine.empty() ? 2600 : 500);     // with keep-alive: long enough for the kept sessions to be pinged
         for (auto *s : mine) { Api a("coap_session_release"); coap_session_release(s); }
         if (--cw.workers_left == 0) cw.stop = true;
       });
